@@ -1,4 +1,5 @@
 """C19 — MPIGuard: failures are agreed on by all processes; futures deliver exactly once."""
+from translators import tr_c19
 
 PID = "C19"
 CLAIM = True
@@ -33,13 +34,22 @@ MANIFEST_TEXT = (
     "every history (two_buffer_same_protocol); get_send_data() hands back exactly the send object of the operation, "
     "acts as a wait() on everything else (the object is released only after completion) and throws on a future whose "
     "result was taken (send_data_once); a second get_send_data() on a still valid future is undefined in the code and "
-    "excluded (send_data_twice_undefined). Tie to the source on every run: the real classes are driven under mpirun (P=1..4, "
+    "excluded (send_data_twice_undefined). Round four: tools/translators/tr_c19.py regenerates lean/DuneVerif/Gen/C19.lean "
+    "from mpiguard.hh, mpifuture.hh and future.hh on every run - finalize/reactivate/~MPIGuard statement by statement as "
+    "programs with the collective, the default arguments and the active_ initialisers of the four constructors, and the "
+    "straight-line members of MPIFuture<R,S>, impl::Buffer<T>/<T&>/<void>, PseudoFuture<T>/<void>, Future<T> and "
+    "Future<T>::FutureModel<F> as lists of statements, operator=(MPIFuture&&) and the move constructor as lists of "
+    "members - and the theorems gen_guard_is_model, gen_guard_ctor_arms, gen_future_is_model, gen_histories_are_model "
+    "(every call history executed by the generated member bodies equals the model's), gen_moves_are_model, "
+    "gen_pseudo_is_model, gen_erased_is_model prove, for every state, that what the source says today IS the model all "
+    "other theorems are about (a changed body makes them false or leaves the translator's grammar = broken obligation). "
+    "Tie to the source on every run, second part: the real classes are driven under mpirun (P=1..4, "
     "thorough up to 8) through every guard constructor (default, MPIHelper, MPI_Comm, Communication<MPI_Comm> on split "
     "communicators, sequential Communication<No_Comm>), all 3^P failure patterns for P<=3 embedded in multi-section "
     "cases, every path of a rank through a section (guard object before x way of arming x act x act of a second rank) "
     "plus random cases, and every non-blocking operation (ibarrier, ibroadcast, igather, iscatter, iallgather, "
-    "iallreduce two-argument and in-place, isend/irecv, default-constructed) x payload types (void, int, vector, bool, "
-    "lvalue buffers int&/vector<int>&) x wrapper (the future itself, move-assigned into a default-constructed object, "
+    "iallreduce two-argument and in-place, isend/irecv (since round four also with lvalue buffers), default-constructed) "
+    "x payload types (void, int, vector, bool, lvalue buffers int&/vector<int>&) x wrapper (the future itself, move-assigned into a default-constructed object, "
     "move-assigned into a variable that served a previous operation of the same kind with other values - result taken / "
     "only waited for / send object and result taken -, Dune::Future<R>, a re-used Dune::Future<R> variable, "
     "Dune::Future<void>, moved-from Dune::Future, default Dune::Future) x all call sequences of valid/ready/wait/get "
@@ -63,19 +73,25 @@ MANIFEST_NOTE = (
     "identity is not modelled in Lean (the model moves values); that the future owns the very objects MPI uses is "
     "checked dynamically by the ownership oracle, which needs the ASan build check.py always uses. Model describes the tree with "
     "fixes/C19_mpifuture_void_get.patch, fixes/C19_future_null_invalid.patch and fixes/C19_mpifuture_bool_payload.patch "
-    "applied."
+    "applied. Translator (round four): a source change that leaves the grammar of tr_c19.py (documented in its header; "
+    "e.g. try/catch, loops, a new kind of statement in a future member) is reported as a broken obligation even if it is "
+    "behaviour preserving; restyling inside the grammar (renamed locals, std::exchange, commuted conditions, != 0 for > 0, "
+    "early return, other swap order, static_cast, other exception texts) is silent. The constructors' communicator "
+    "argument, GuardCommunicator and the non-blocking members of (mpi)communication.hh are not translated (run + oracle only); "
+    "finalize() on a guard that is not armed is modelled and proved silent (unarmed_finalize_never_throws) but not generated."
 )
 TECHNIQUE = ("Lean 4 proof over program-with-collectives model (lock-step semantics, induction over sections and call "
-             "histories, exact deadlock characterisation) + differential correspondence under mpirun with PMPI "
+             "histories, exact deadlock characterisation) + translator regenerating guard programs and future member bodies "
+             "from the source, proved equal to the model + differential correspondence under mpirun with PMPI "
              "interposition (deadlock turned into a verdict, MPI_Test steering) and a statement-level oracle")
-TRANSLATORS = []
+TRANSLATORS = [tr_c19.translate]
 HARNESS = dict(
     sources=["mpi_c19.cc", "pmpi_sched.cc"],
     mpi=True,
     repo_sources=["dune/common/exceptions.cc", "dune/common/stdstreams.cc"],
 )
 CRASH_IS_VIOLATION = True
-RULE = ("cases: (a) guard: constructor x colour split x 1..6 sections, per rank arm in {new, new-inactive+reactivate, "
+RULE = ("translator: Gen/C19.lean regenerated from the tree under test before the proofs are checked; cases: (a) guard: constructor x colour split x 1..6 sections, per rank arm in {new, new-inactive+reactivate, "
         "reactivate} and act in {finalize(true), finalize(), finalize(false), reactivate, throw, leave scope}, end of the "
         "case matched per communicator; for P<=3 every pattern over {ok, finalize(false), throw}^P occurs as a section "
         "for every constructor; every (guard object before, arm, act, act of rank 1) path of rank 0; (b) futures: "
@@ -87,12 +103,12 @@ RULE = ("cases: (a) guard: constructor x colour split x 1..6 sections, per rank 
         "rank made a judged call (idle-only ranks and steps consisting of '-'/'c' only are trivial)")
 ASSUMPTIONS = [
     "MPI is trusted: collectives on one communicator match in order and deliver the sum to every member; a request completes iff its operation completed; MPI_Wait returns then; MPI_Test may answer 'not complete' for an active request",
-    "the Lean model lean/DuneVerif/Model/C19.lean is hand-written; its fidelity to mpiguard.hh, mpifuture.hh, future.hh rests on this differential run",
+    "the Lean model lean/DuneVerif/Model/C19.lean is hand-written; since round four the bodies of finalize/reactivate/~MPIGuard, the constructors' active_ initialisers and defaults, and the members valid/wait/ready/get/get_send_data/operator=/move constructor of the future classes are regenerated from the source by tools/translators/tr_c19.py and proved equal to it (gen_* theorems); the meaning given to the statement kinds (lean Interp.*: MPI_Wait, MPI_Test, buffer get) and everything else (communicators, non-blocking members of the communication classes, wrappers) rests on this differential run",
     "theorems sections_agree/agreement/no_failure_no_error assume a matched end of the case (no member or every member of a communicator ends with a successful reactivate()); guard_deadlock_iff proves that exactly the other cases deadlock (a rank that re-armed owes another section); the harness and the driver reject those lines",
     "a re-used future variable is assigned to only after its previous operation has been waited for or taken (the harness never assigns over a request in flight: ~MPIFuture would MPI_Cancel it); the previous operation has the same kind and other values in every entry",
     "the collective results the futures deliver (sum/min/max, gather, scatter, broadcast, send/recv) are computed from the contributions at specification level; their MPI implementation is C07's subject",
 ]
-TRUSTED = ["mpicxx/g++/libstdc++, ASan/UBSan (incl. __asan_region_is_poisoned for the ownership oracle), Open MPI 4.1 (incl. its profiling interface)",
+TRUSTED = ["translator tools/translators/tr_c19.py (statement grammar -> Lean programs / statement lists)", "mpicxx/g++/libstdc++, ASan/UBSan (incl. __asan_region_is_poisoned for the ownership oracle), Open MPI 4.1 (incl. its profiling interface)",
            "harness/mpi_c19.cc (PMPI interposers, oracles) + Driver/C19.lean parsing/printing"]
 
 
